@@ -5,6 +5,7 @@ CONSTANTS
   MaxInp = 6
   MaxWrite = 3
   EmitOps = TRUE
+  Backward = FALSE
 INVARIANT Inv
 PROPERTY Refines
 ACTION_CONSTRAINT Emit
